@@ -337,7 +337,7 @@ def _term(x):
     if isinstance(x, bool):
         return z3.IntVal(_int(x))
     if isinstance(x, _int):
-        return z3.IntVal(x)
+        return z3.IntVal(_int(x))  # (IntEnum members print as names)
     return None
 
 
